@@ -34,7 +34,7 @@ contract(
     raises_only=["pycomm3.exceptions.DataError"],
     ensures_exc=["spec.epath.port_number(port) is None or link is None or isinstance(link, str) and not link.isdigit() or "
                  "not isinstance(link, bytes) and not (0 <= int(link) <= 255)"],
-    props=["C09", "C15"])
+    props=["C09", "C15", "C08"])
 contract(
     id="port.encode.ip", func=DT + "CIPSegment.encode", call=DT + "PortSegment.encode(seg, padded)",
     params={"port": P.oneof(*PORT_ALTS, P.int(1, 14)),
@@ -45,14 +45,14 @@ contract(
              "len(result) % 2 == 0"],
     raises_only=["pycomm3.exceptions.DataError"],
     ensures_exc=["a > 255 or b > 255 or c > 255 or d > 255"],
-    props=["C09", "C15"])
+    props=["C09", "C15", "C08"])
 contract(
     id="port.encode.bytes", func=DT + "CIPSegment.encode", call=DT + "PortSegment.encode(seg, padded)",
     params={"port": P.oneof(*PORT_ALTS, P.int(1, 14)), "link": P.bytes(minlen=2, maxlen=255), "padded": P.bool()},
     setup=[f"seg = {DT}PortSegment(port, link)"],
     ensures=["spec.epath.try_parse(result, True) == [('port', spec.epath.port_number(port), link)]", "len(result) % 2 == 0"],
     raises_only=["pycomm3.exceptions.DataError"], ensures_exc=["False"],
-    props=["C09", "C15"])
+    props=["C09", "C15", "C08"])
 
 # ---- ANSI extended symbol segment
 contract(
@@ -62,7 +62,7 @@ contract(
     ensures=["spec.epath.try_parse(result, True) == [('symbol', name.encode())]", "len(result) % 2 == 0",
              "len(name.encode()) <= 255"],
     raises_only=["pycomm3.exceptions.DataError"], ensures_exc=["len(name.encode()) > 255"],
-    props=["C09"])
+    props=["C09", "C08"])
 
 # ---- class / instance / attribute request paths
 VAL = P.oneof(P.int(0, 0xFFFFFFFF), P.bytes(len=1), P.bytes(len=2), P.bytes(len=4))
